@@ -17,11 +17,20 @@ MODEL_RUNS = [{"module": "MC_Wire"}, {"module": "MC_Replies"}]
 # ----------------------------------------------------------------------------------------
 # building blocks
 def rid(rng):
+    if rng.random() < 0.1:      # ids / keys that look like protocol markers or like nothing at all
+        return rng.choice(["f0fe01", "fef0aa", "00f0fe", "000000", "ffffff", "0a0d00"]), rng.choice(["f0", "fe", "00", "ff", "30"])
     return rng.randbytes(3).hex(), rng.randbytes(1).hex()
 
 
+MARKER_SESSIONS = [[0xF0, 0xFE, 0x00, 0x01], [0xFE, 0xF0, 0xF0, 0xFE], [0x01, 0xF0, 0xFE, 0x02], [0x00, 0x00, 0xF0, 0xFE], [0xFE, 0xF0, 0x30, 0x00],
+                   [0, 0, 0, 0], [0xFF, 0xFF, 0xFF, 0xFF], [0x0A, 0x0D, 0x00, 0x20]]
+
+
 def login(rng, n=None):
-    return {"t": "login", "seed": rng.randrange(1 << 30), "len": n or rng.choice([12, 13, 44, 44, 44, 48, 64, 100])}
+    d = {"t": "login", "seed": rng.randrange(1 << 30), "len": n or rng.choice([12, 13, 44, 44, 44, 48, 64, 100])}
+    if rng.random() < 0.12:
+        d["sess"] = rng.choice(MARKER_SESSIONS)
+    return d
 
 
 def ack(rng):
@@ -107,12 +116,14 @@ def op1(rng, name: str, a: dict, ok_login=True):
     return {"op": name, "a": a, "replies": [login(rng), cmd_reply]}
 
 
+MARKER_CLOCKS = [float(int.from_bytes(bytes(b), "little")) + 0.25 for b in ([0xF0, 0xFE, 0x10, 0x60], [0x01, 0xF0, 0xFE, 0x6A], [0xFE, 0xF0, 0x00, 0x6B],
+                                                                            [0x00, 0x00, 0xF0, 0xFE], [0xF0, 0xFE, 0xF0, 0xFE])]
 SMALL_CLOCKS = [16.0, 255.0, 256.0, 4096.25, 4660.5, 21600.0, 65536.0, 1048576.0, 5097600.0, 15724800.0, 16777216.5, 268435456.0]
 
 
 def t0_any(rng):
     if rng.random() < 0.35:
-        return rng.choice(SMALL_CLOCKS)
+        return rng.choice(SMALL_CLOCKS + MARKER_CLOCKS)
     return rng.choice([1.0, 255.5, 65535.75, 1790000000.25, 2147483647.5, 2147483648.0, 4294967294.25, float(rng.randrange(1, 4294967295)) + rng.random()])
 
 
@@ -419,6 +430,14 @@ class C03(ClientProp):
             z = rng.choice(ZONES_ALL)
             ops = [self._any_op(rng, api, zone=z) for _ in range(rng.randrange(3, 21))]
             out.append(one(rng, api, ops, t0=t0_pre2038(rng), zone=z))
+        # long histories on one object (counters, caches that evict, the N-th call for N in the hundreds)
+        for api in (1, 2):
+            for _ in range(ctx.pick(1, 6)):
+                z = rng.choice(ZONES_ALL)
+                ops = [self._any_op(rng, api, zone=z) for _ in range(ctx.pick(300, 1200))]
+                for o in ops:
+                    o["tick"] = rng.choice([0, 0, 0, 1, 61])
+                out.append(one(rng, api, ops, t0=t0_pre2038(rng), zone=z))
         # two instances, interleaved
         for _ in range(ctx.pick(150, 3000)):
             apis = rng.choice([(1, 2), (1, 1), (2, 2), (2, 1)])
